@@ -193,6 +193,8 @@ func (t *Tx) GetUnconfirmedTx(dedup bool) ([]*pb.Transaction, error) {
 	if loadErr != nil {
 		return nil, loadErr
 	}
+	// 只读某个key版本的交易，必须排在改写这个版本的交易之前
+	addReadBeforeWriteEdges(txMap, txGraph)
 	// 拓扑排序，输出的顺序是被依赖的在前，依赖方在后
 	outputTxList, unexpectedCyclic, _ := TopSortDFS(txGraph)
 	if unexpectedCyclic { // 交易之间检测出了环形的依赖关系
@@ -206,6 +208,44 @@ func (t *Tx) GetUnconfirmedTx(dedup bool) ([]*pb.Transaction, error) {
 		selectedTxs = append(selectedTxs, txMap[txid])
 	}
 	return selectedTxs, nil
+}
+
+// addReadBeforeWriteEdges 给依赖图补充"读先于写"的边: 交易A只读了key的版本v, 交易B把版本v改写了,
+// 则打包顺序必须是A在B前面, 否则A在区块里校验读集合时版本已经被B改掉
+func addReadBeforeWriteEdges(txMap map[string]*pb.Transaction, txGraph TxGraph) {
+	type keyVersion struct {
+		bucket, key, refTxid string
+		refOffset            int32
+	}
+	writtenKeys := func(tx *pb.Transaction) map[string]bool {
+		keys := map[string]bool{}
+		for _, txOut := range tx.TxOutputsExt {
+			keys[txOut.Bucket+"/"+string(txOut.Key)] = true
+		}
+		return keys
+	}
+	overwrittenBy := map[keyVersion]string{}
+	for txID, tx := range txMap {
+		written := writtenKeys(tx)
+		for _, txIn := range tx.TxInputsExt {
+			if written[txIn.Bucket+"/"+string(txIn.Key)] {
+				kv := keyVersion{txIn.Bucket, string(txIn.Key), string(txIn.RefTxid), txIn.RefOffset}
+				overwrittenBy[kv] = txID
+			}
+		}
+	}
+	for txID, tx := range txMap {
+		written := writtenKeys(tx)
+		for _, txIn := range tx.TxInputsExt {
+			if written[txIn.Bucket+"/"+string(txIn.Key)] {
+				continue
+			}
+			kv := keyVersion{txIn.Bucket, string(txIn.Key), string(txIn.RefTxid), txIn.RefOffset}
+			if writerID, exist := overwrittenBy[kv]; exist && writerID != txID {
+				txGraph[txID] = append(txGraph[txID], writerID)
+			}
+		}
+	}
 }
 
 // 加载所有未确认的订单表到内存
